@@ -230,7 +230,9 @@ func (cr *caseRun) orderLaws(t []ent) {
 			if m[x][y] != -m[y][x] {
 				cr.fail("order:antisymmetric", fmt.Sprintf("Compare(a,b)=%d but Compare(b,a)=%d, a=%v b=%v", m[x][y], m[y][x], a, b), nil)
 			}
-			same := bytes.Equal(a.u, b.u) && a.seq == b.seq && a.kind == b.kind
+			// "identical" up to the user comparer: equal user keys (all matrix comparers but the
+			// padding-insensitive one are injective) and the same packed number
+			same := cr.ucmp.Compare(a.u, b.u) == 0 && a.seq == b.seq && a.kind == b.kind
 			cr.law("zero-iff-identical")
 			if (m[x][y] == 0) != same {
 				cr.fail("order:zero-iff-identical", fmt.Sprintf("Compare(a,b)=%d, identical=%v, a=%v b=%v", m[x][y], same, a, b), nil)
@@ -463,9 +465,31 @@ func (cr *caseRun) rawLaws(cmp comparer.Comparer, t []ent, verdict bool) {
 	}
 }
 
+// padInsensitive is a valid but non-injective comparer: trailing 0x00 bytes are ignored, so a
+// shorter string can compare equal to a longer one; its Separator returns the stripped form of a
+// (a <= sep < b holds: sep equals a under the order).
+type padInsensitive struct{}
+
+func trimPad(b []byte) []byte {
+	for len(b) > 0 && b[len(b)-1] == 0 {
+		b = b[:len(b)-1]
+	}
+	return b
+}
+func (padInsensitive) Compare(a, b []byte) int { return bytes.Compare(trimPad(a), trimPad(b)) }
+func (padInsensitive) Name() string            { return "verif.PadInsensitive" }
+func (padInsensitive) Separator(dst, a, b []byte) []byte {
+	if t := trimPad(a); len(t) < len(a) {
+		return append(dst, t...)
+	}
+	return nil
+}
+func (padInsensitive) Successor(dst, b []byte) []byte { return nil }
+
 func runCase(c *wk.Ctx, i int) {
 	r := c.Rand(i)
-	ucmp := model.Comparers[i%len(model.Comparers)]
+	cmps := append(append([]comparer.Comparer{}, model.Comparers...), padInsensitive{})
+	ucmp := cmps[i%len(cmps)]
 	ntr := c.Pick(4200, 5300)
 	cr := &caseRun{c: c, i: i, r: r, ucmp: ucmp, icmp: leveldb.VerifInternalComparer(ucmp), n: map[string]int64{}}
 	cr.kg = model.NewKeyGen(r, 60+r.Intn(340))
@@ -512,7 +536,7 @@ func runCase(c *wk.Ctx, i int) {
 }
 
 func run(c *wk.Ctx) {
-	n := c.Pick(96, 960)
+	n := c.Pick(210, 2100)
 	for i := 0; i < n; i++ {
 		if c.Mine(i) {
 			runCase(c, i)
